@@ -588,7 +588,7 @@ def gen_par():
             macros[name] = chain_of(body)
         except Unparsed:
             pass
-    par, seq = [], []
+    par, seq, helpers = [], [], []
     i = 0
     n = len(toks)
     while i < n:
@@ -599,6 +599,16 @@ def gen_par():
             if 'rayon' in attr:
                 neg = 'not' in attr
                 st, k = stmt_after(toks, j + 1)
+                # an item (fn / impl / struct) that only exists with (or without) rayon: parallel code outside the modelled loop shapes
+                head = [t[1] for t in st[:4]]
+                if 'fn' in head or 'impl' in head or 'struct' in head:
+                    nm = st[head.index('fn') + 1][1] if 'fn' in head and head.index('fn') + 1 < len(st) else head[0]
+                    helpers.append(('seq:' if neg else 'par:') + nm)
+                    jb = j + 1
+                    while jb < n and toks[jb][1] != '{':
+                        jb += 1
+                    i = find_matching(toks, jb, '{', '}') + 1 if jb < n else k
+                    continue
                 if st and st[0][1] != 'use':
                     # a macro invocation `name ! ( .. )` anywhere at depth 0 contributes the macro's chain
                     ch = []
@@ -643,7 +653,9 @@ def gen_par():
            "/-- same for the statements guarded by `cfg(not(feature = \"rayon\"))` -/",
            "def seqLoops : List (List String) := [" + ', '.join(lean_list(c) for c in seq) + "]",
            "/-- occurrences of interior mutability / global state / clocks / randomness / unsafe in src (hooks module and test modules excluded) -/",
-           "def sharedStateHits : List String := " + lean_list(sorted(set(hits)))]
+           "def sharedStateHits : List String := " + lean_list(sorted(set(hits))),
+           "/-- functions / items that exist only with (par:) or only without (seq:) the rayon feature -/",
+           "def featureOnlyItems : List String := " + lean_list(helpers)]
     return '\n'.join(out) + '\n'
 
 
@@ -932,7 +944,7 @@ STUBS = {
     'InSphere': "def inSphereDet (a b c d v : I3 Int) : Int := 0\n" + ''.join("def signExtract_%s (determinant : Int) : Int := 0\n" % b for b in BACKENDS),
     'Face': "def clipNormalSign : Int := 0\ndef storedNormalSign : Int := 0\n",
     'Geom': "",
-    'Par': "def parLoops : List (List String) := []\ndef seqLoops : List (List String) := []\ndef sharedStateHits : List String := []\n",
+    'Par': "def parLoops : List (List String) := []\ndef seqLoops : List (List String) := []\ndef sharedStateHits : List String := []\ndef featureOnlyItems : List String := []\n",
     'Space': "def cellLocAxes : List Nat := []\n",
     'Grid': "def gridPad : Rat := 0\ndef gridSpan : Rat := 1\ndef mantissaMask : Nat := 0\n",
 }
